@@ -144,8 +144,12 @@ pub fn gen_doc(src: &mut Src, cfg: &GenCfg) -> J {
     if src.chance(1, 25) {
         gen_scalar(src)
     } else if src.chance(1, 60) {
-        // a deep, narrow document (depth 8-40)
-        let depth = 8 + src.below(33);
+        // a deep, narrow document (depth 8-40, sometimes beyond 64 / 128 / 256)
+        let depth = match src.weighted(&[80, 15, 5]) {
+            0 => 8 + src.below(33),
+            1 => 41 + src.below(90),
+            _ => 131 + src.below(170),
+        };
         let mut j = gen_scalar(src);
         for i in 0..depth {
             j = if src.bool() {
